@@ -1,4 +1,5 @@
 import WindVerif.Proofs.ForkFile
+import WindVerif.Proofs.ForkFileFd
 /-!
 # C18 — One opened line/map file can be read from many forked processes at once
 
@@ -44,5 +45,65 @@ theorem total (s : St) (h : Reach s) (a : Act)
 
 /-- non-vacuity: the child's seek lands between the parent's seek and read; both read their own line -/
 example : (run init [.fork 0, .seek 0 3, .seek 1 7, .read 0, .read 1]).map (·.2) = some [(0, 3), (1, 7)] := by decide
+
+end WindVerif.C18
+
+/-!
+## A forked child without a spare file descriptor (`Model/ForkFileFd.lean`)
+
+`reopen_if_needed` closes the inherited handle first and opens its own afterwards; the other order needs a second
+descriptor slot for a moment and, when the child has none, fails after the pid was already recorded.
+-/
+namespace WindVerif.C18
+open WindVerif.ForkFileFd
+
+/-- the code (close, then open) succeeds in a child with ANY number of free slots, also none: own handle, pid recorded,
+the same number of free slots as before -/
+theorem close_first_never_fails (p : P) (d fresh : Nat) (hh : p.handle = .inherited d) :
+    (reopenCloseFirst p fresh).2 = true ∧ (reopenCloseFirst p fresh).1.handle = .own fresh ∧
+      (reopenCloseFirst p fresh).1.claimed = true ∧ (reopenCloseFirst p fresh).1.free = p.free := by
+  first | exact WindVerif.ForkFileFd.close_first_never_fails .. | (apply WindVerif.ForkFileFd.close_first_never_fails <;> assumption)
+
+/-- the other order (record pid, open, close) fails in a child with a full descriptor table and leaves the inherited
+handle with the pid already recorded -/
+theorem open_first_fails_when_full (p : P) (d fresh : Nat) (hh : p.handle = .inherited d) (hf : p.free = 0) :
+    (reopenOpenFirst p fresh).2 = false ∧ (reopenOpenFirst p fresh).1.handle = .inherited d ∧
+      (reopenOpenFirst p fresh).1.claimed = true := by
+  first | exact WindVerif.ForkFileFd.open_first_fails_when_full .. | (apply WindVerif.ForkFileFd.open_first_fails_when_full <;> assumption)
+
+/-- such a state is stuck: the guard never fires again (whatever the reopen procedure is), the state does not change and
+every later use by the child goes to the description the parent uses -/
+theorem claimed_inherited_is_stuck (reopen : P → Nat → P × Bool) (parent child : P) (d : Nat)
+    (hp : parent.handle = .own d) (hc : child.claimed = true) (hh : child.handle = .inherited d) (fs : List Nat) :
+    (accesses reopen child fs).1 = child ∧ ∀ u ∈ (accesses reopen child fs).2, u = parent.handle.desc := by
+  first | exact WindVerif.ForkFileFd.claimed_inherited_is_stuck .. | (apply WindVerif.ForkFileFd.claimed_inherited_is_stuck <;> assumption)
+
+/-- with a free slot both orders end in the same state with the same outcome (ordinary use cannot tell them apart) -/
+theorem open_first_ok_when_room (p : P) (fresh : Nat) (hf : p.free ≥ 1) :
+    reopenOpenFirst p fresh = reopenCloseFirst p fresh := by
+  first | exact WindVerif.ForkFileFd.open_first_ok_when_room .. | (apply WindVerif.ForkFileFd.open_first_ok_when_room <;> assumption)
+
+/-- non-vacuity of the hypotheses: a forked child of a parent with `own 0` has `inherited 0`; with no free slot the failed
+open-first reopen gives exactly the stuck state -/
+example : (forkChild ⟨5, .own 0, true⟩ 0).handle = .inherited 0 ∧ (forkChild ⟨5, .own 0, true⟩ 0).free = 0 ∧
+    (reopenOpenFirst (forkChild ⟨5, .own 0, true⟩ 0) 1).1 = ⟨0, .inherited 0, true⟩ := by decide
+example : (⟨2, .inherited 0, false⟩ : P).free ≥ 1 ∧
+    reopenOpenFirst ⟨2, .inherited 0, false⟩ 1 = (⟨2, .own 1, true⟩, true) := by decide
+
+/-- witness: parent `own 0`, child forked with a full table.  After the failed open-first reopen the child's three next uses
+all go to description 0, the parent's; -/
+example :
+    let parent : P := ⟨5, .own 0, true⟩
+    let child := forkChild parent 0
+    (reopenOpenFirst child 1).2 = false ∧
+      (accesses reopenOpenFirst child [1, 2, 3]).2 = [parent.handle.desc, parent.handle.desc, parent.handle.desc] := by decide
+
+/-- with the code's order they go to the child's own description 1, not to the parent's -/
+example :
+    let parent : P := ⟨5, .own 0, true⟩
+    let child := forkChild parent 0
+    (reopenCloseFirst child 1).2 = true ∧
+      (accesses reopenCloseFirst child [1, 2, 3]).2 = [some 1, some 1, some 1] ∧ parent.handle.desc = some 0 ∧
+      (accesses reopenCloseFirst child [1, 2, 3]).1 = ⟨0, .own 1, true⟩ := by decide
 
 end WindVerif.C18
